@@ -29,7 +29,7 @@ func c18Mont(v *big.Int) [4]uint64 {
 func TestVerif_C18_SM2Tables(t *testing.T) {
 	rec := stats.Get("C18", "sm2-tables")
 	rec.Exhaustive(true)
-	rec.Rule("complete enumeration of the four comb tables and their remainder tables (shape first, then every entry): entry (j,i) must be the Montgomery form (x*2^256 mod p, four little-endian 64-bit limbs) of the affine x and y of sum over set bits b of i+1 of 2^(rem + j*iter + b*sub*iter) * G, remainder entry i = [i+1]G — computed by the affine big.Int reference; plus the curve parameters, GetN and GetZBytes against GM/T 0003.5 constants written out in the harness. Every entry is a case; all non-trivial; distinct by (table, j, i).")
+	rec.Rule("complete enumeration of the four comb tables and their remainder tables, taken AFTER a workload of multiplications whose results the caller modified in place (shape first, then every entry): entry (j,i) must be the Montgomery form (x*2^256 mod p, four little-endian 64-bit limbs) of the affine x and y of sum over set bits b of i+1 of 2^(rem + j*iter + b*sub*iter) * G, remainder entry i = [i+1]G — computed by the affine big.Int reference; plus the curve parameters, GetN and GetZBytes against GM/T 0003.5 constants written out in the harness. Every entry is a case; all non-trivial; distinct by (table, j, i).")
 	t.Cleanup(stats.FlushAll)
 	type scheme struct {
 		name                   string
@@ -42,6 +42,40 @@ func TestVerif_C18_SM2Tables(t *testing.T) {
 		{"6_3_14", sm2Precomputed_6_3_14, sm2Precomputed_6_3_14_Remainder, 6, 3, 14, 4},
 		{"5_3_17", sm2Precomputed_5_3_17, sm2Precomputed_5_3_17_Remainder, 5, 3, 17, 1},
 		{"7_3_12", sm2Precomputed_7_3_12, sm2Precomputed_7_3_12_Remainder, 7, 3, 12, 4},
+	}
+	// The tables must equal their derivation not only at start-up but also AFTER the library has been used: a workload of base,
+	// variable and double-scalar multiplications (small and full-size scalars, zero scalars) whose RESULTS ARE THEN MODIFIED IN PLACE
+	// by the caller (a result that aliases table storage would corrupt the table).
+	{
+		mut := func(p *SM2Point) {
+			if p != nil {
+				p.Double(p)
+				p.Add(p, NewSM2Generator())
+				p.Negate(p)
+			}
+		}
+		P := NewSM2Generator()
+		zero := make([]byte, 32)
+		for g := 0; g < 64; g++ {
+			gb := make([]byte, 32)
+			gb[31] = byte(g)
+			r1, _ := ScalarMixedMult_Unsafe(gb, P, zero)
+			mut(r1)
+			r2, _ := ScalarBaseMult(gb)
+			mut(r2)
+			gb[0], gb[7], gb[20] = byte(g*37), byte(g*11), byte(g*5)
+			r3, _ := ScalarMixedMult_Unsafe(gb, P, gb)
+			mut(r3)
+			r4, _ := ScalarBaseMult(gb)
+			mut(r4)
+			r5, _ := ScalarMult(P, gb)
+			mut(r5)
+			for _, f := range []func([]byte) (*SM2Point, error){scalarBaseMult_SkipBitExtraction_4_2_32, scalarBaseMult_SkipBitExtraction_5_3_17, scalarBaseMult_SkipBitExtraction_7_3_12} {
+				r6, _ := f(gb)
+				mut(r6)
+			}
+		}
+		rec.Note("tables are enumerated after a workload of 64 x 8 multiplications whose results were modified in place")
 	}
 	checkPt := func(tab string, j, i int, x, y *[4]uint64, k *big.Int) {
 		rec.Enumerated(1, "table:"+tab)
